@@ -100,6 +100,10 @@ func driveC14(args []string) error {
 		{"transparent", color.RGBA{}},
 		{"gradient-looking", color.RGBA{0x02, 0x4a, 0x8a, 0x00}},
 		{"invalid", color.RGBA{0x00, 0x99, 0x00, 0x88}},
+		{"invalid-alpha0", color.RGBA{0x01, 0x00, 0x00, 0x00}},
+		{"invalid-alpha0-b", color.RGBA{0x10, 0x20, 0x7f, 0x00}},
+		{"invalid-alpha1", color.RGBA{0x02, 0x01, 0x00, 0x01}},
+		{"rgba64-invalid-alpha0", color.RGBA64{0x0100, 0, 0, 0}},
 		{"nrgba", color.NRGBA{0xff, 0x80, 0x40, 0x7f}},
 		{"nrgba-opaque", color.NRGBA{0x12, 0x34, 0x56, 0xff}},
 		{"gray", color.Gray{0x7b}},
@@ -123,6 +127,7 @@ func driveC14(args []string) error {
 	fullB[0] = color.RGBA{0x02, 0x4a, 0x8a, 0x00} // gradient-looking user entry
 	fullB[5] = color.RGBA{0x00, 0x99, 0x00, 0x88} // non-premultiplied user entry
 	fullB[63] = color.RGBA{0x80, 0x00, 0x00, 0x40}
+	fullB[1] = color.RGBA{0x01, 0x00, 0x00, 0x00} // alpha 0 with colour, not gradient-shaped
 
 	type opt struct {
 		o decode.DecodeOption
